@@ -117,6 +117,20 @@ DIRECTED_LOOPS += [
 # pairs of programs that end with the SAME data reachable by the program (same objects of every kind), reached through different
 # histories: what the first history could reach only while it ran must be gone after a collection, so the censuses are equal
 TWINS = [
+    # a suspended fiber keeps what its body still holds - not what it handed over with a yield, nor what it was handed and dropped
+    ("suspended-fiber-does-not-keep-what-it-yielded",
+     "var gens = [];\nfor i in 0..10 { var g = Fiber.new(|| { var n = 0; while true { Fiber.yield([n, n, n]); n = n + 1; } }); g.call(); g.call(); gens.push(g); }\nprint(gens.len());\n",
+     "var gens = [];\nfor i in 0..10 { var g = Fiber.new(|| { var n = 0; while true { Fiber.yield(3); n = n + 1; } }); g.call(); g.call(); gens.push(g); }\nprint(gens.len());\n"),
+    ("suspended-fiber-does-not-keep-what-it-was-handed",
+     "var gens = [];\nfor i in 0..10 { var g = Fiber.new(|a| { while true { a = Fiber.yield(1).len(); } }); g.call([i]); g.call([i, i, i]); gens.push(g); }\nprint(gens.len());\n",
+     "var gens = [];\nfor i in 0..10 { var g = Fiber.new(|a| { while true { a = Fiber.yield(1) + 1; } }); g.call(1); g.call(3); gens.push(g); }\nprint(gens.len());\n"),
+    # a closure made inside a try block that was left by a throw / by a return through finally keeps ITS variables, not the older open ones
+    ("closure-from-a-try-block-left-by-throw",
+     "fn mk() { var older = [1, 1, 1]; var og = || older; try { var mine = [2]; throw || mine; } catch e { return e; } }\nvar keep = mk();\nprint(keep());\n",
+     "fn mk() { try { var mine = [2]; throw || mine; } catch e { return e; } }\nvar keep = mk();\nprint(keep());\n"),
+    ("closure-from-a-try-block-left-by-return",
+     "fn mk() { var older = [1, 1, 1]; var og = || older; try { var mine = [2]; return || mine; } finally { var pad = 1; } }\nvar keep = mk();\nprint(keep());\n",
+     "fn mk() { try { var mine = [2]; return || mine; } finally { var pad = 1; } }\nvar keep = mk();\nprint(keep());\n"),
     ("closure-over-innermost-frame-only",
      "fn deep(n) { var x = [n, n, n]; var c = || x; if n == 0 { return c; } return deep(n - 1); }\nvar keep = deep(20);\nprint(keep().len());\n",
      "fn deep(n) { var x = [n, n, n]; if n == 0 { var c = || x; return c; } var r = deep(n - 1); x = nil; return r; }\nvar keep = deep(20);\nprint(keep().len());\n"),
@@ -177,12 +191,23 @@ COMBO_C = [
     ("fiber-finished", "prev = Fiber.new(|p| step(p)).call(prev);"),
     ("fiber-suspended-dropped", "var fb = Fiber.new(|p| { var s = step(p); var hold = [p]; Fiber.yield(s); return hold; }); prev = fb.call(prev);"),
     ("fiber-nested", "prev = Fiber.new(|p| Fiber.new(|q| step(q)).call(p)).call(prev);"),
+    # the survivor is captured by a closure made inside a try block that is left by a throw / a return through finally while an older
+    # captured variable (holding the argument) is still open below it; the closure is what survives
+    ("closure-made-in-try-left-by-throw", "fn ctx(p) { var older = [p]; var og = || older; try { var s = step(p); throw || s; } catch e { return e; } } prev = ctx(prev);"),
+    ("closure-made-in-try-left-by-return", "fn ctx(p) { var older = [p]; var og = || older; try { var s = step(p); return || s; } finally { var pad = 1; } } prev = ctx(prev);"),
+    # a generator that stays suspended after handing the survivor over with a yield
+    ("yielded-by-a-generator-that-stays-suspended", "var gen = Fiber.new(|p| { var s = step(p); p = nil; Fiber.yield(s); s = nil; Fiber.yield(0); }); prev = gen.call(prev); gen.call();"),
     # the survivor is (held by) a fiber that FINISHED after being called by a fiber that stays suspended with the argument on its stack
     ("finished-fiber-whose-caller-stays-suspended",
      "var fb = Fiber.new(|p| { var hold = [p]; var inner = Fiber.new(|q| step(q)); inner.call(p); Fiber.yield(inner); return hold; }); prev = fb.call(prev);"),
     ("value-from-a-fiber-that-finished-inside-a-suspended-one",
      "var fb = Fiber.new(|p| { var hold = [p]; var inner = Fiber.new(|q| { Fiber.yield(0); return step(q); }); inner.call(p); var s = inner.call(); Fiber.yield([s, inner]); return hold; }); prev = fb.call(prev);"),
 ]
+
+
+# twins left out of the comparison with the reference interpreter's reachable set: its suspended continuation still holds the operand of the
+# pending `Fiber.yield(v)` / the argument that was handed in (an over-approximation of what the program can reach; the twin census decides)
+SPEC_OVERAPPROXIMATES = {"suspended-fiber-does-not-keep-what-it-yielded", "suspended-fiber-does-not-keep-what-it-was-handed"}
 
 
 def combo_loops():
@@ -395,7 +420,7 @@ def correspondence(ctx, model_ok=True):
     if model_ok and specdiff.available():
         n_rc = 2400 if ctx.thorough else 400
         gen = progs_mod.generated(rng.fork("reach"), ["data", "closures", "classes", "fibers", "iteration", "exceptions", "alloc", "typed", "typed-try"], n_rc)
-        rc_progs = [("empty", "\n", {})] + [(n, s_, m) for n, s_, m, _ in gen] + [("twin:%s:%s" % (n, t), s_, {}) for n, a, b in TWINS for t, s_ in (("a", a), ("b", b))]
+        rc_progs = [("empty", "\n", {})] + [(n, s_, m) for n, s_, m, _ in gen] + [("twin:%s:%s" % (n, t), s_, {}) for n, a, b in TWINS for t, s_ in (("a", a), ("b", b)) if n not in SPEC_OVERAPPROXIMATES]
         rc_lines = [vlib.case_line("rc%d" % i, progs_mod.module_steps(m, s_) + ["S:" + vlib.hx(s_), "G"], gc="default", steps=3000000) for i, (n, s_, m) in enumerate(rc_progs)]
         rreal = vlib.run_real(runner, rc_lines)
         try:
